@@ -129,6 +129,14 @@ where
             rp
         };
         if !fails.is_empty() {
+            // "leaves the stack intact": only an insertion that started from a state on which the stack
+            // held can be blamed (a constructed start can already be invalid: recorded finding F6 of C01)
+            let (pre_fails, _) = state_failures(s.pre, guarantee_of(s.pre_cfg));
+            if !pre_fails.is_empty() {
+                out.count("not_judged/pre_state_already_invalid");
+                out.count(&format!("not_judged/pre_state_already_invalid/step{}", if s.index == 0 { "0(start)" } else { ">0" }));
+                return false;
+            }
             let aspect = tri::Cert { structure: fails.clone(), ..Default::default() }.aspect();
             out.violation(P, &format!("D{}/{}/{:?}/{}/{}", D, s.op.kind(), gu, res.label(), aspect), format!("after {} ({}) -> {}: {}", s.op.kind(), s.op.how(), res.label(), fails.iter().take(3).cloned().collect::<Vec<_>>().join("; ")), mk_rp(s.log));
             stop_violation = true;
